@@ -1,12 +1,11 @@
 (* EncOutcomes.v — C09, last stage, assembled: once the reader and kekulize have returned, encoder() under a table with a
-   '?' entry returns, or raises EncoderError (the strict check), or ends in the one internal error that no invariant
-   proved so far excludes - ValueError (a bond whose order is not 1, 2 or 3 when its symbol is printed: an aromatic bond
-   that kekulize did not rewrite).  No IndexError, KeyError, AttributeError, AssertionError, and the walk's fuel is never
+   '?' entry returns or raises EncoderError (the strict check) - nothing else.  No IndexError, KeyError, AttributeError,
+   AssertionError, no ValueError (EncOrders.v: kekulize leaves no bond of order 1.5), and the walk's fuel is never
    exhausted. *)
 From Coq Require Import Ascii String List Arith ZArith NArith Bool Lia.
 Import ListNotations.
 From Selfies Require Import Base Generated Lex Atoms Grammar Decoder Smiles PySet Matching Kekulize Encoder BaseFacts
-  EncHyp EncShape EncTokens EncRows EncFuel EncIndex EncKey EncAttrErr EncUniq.
+  EncHyp EncShape EncTokens EncRows EncFuel EncIndex EncKey EncAttrErr EncUniq EncOrders.
 Local Open Scope nat_scope.
 
 Definition univ (e : exn) : Prop := In e [EncoderError; AssertionError; ValueError; IndexError; KeyError; AttributeError; OutOfFuel].
@@ -119,7 +118,7 @@ Qed.
 Theorem encoder_after_kekulize_outcomes T smiles strict attribute m0 m1 e :
   (exists v, assoc (lit "?") T = Some v) ->
   smiles_to_mol smiles attribute = Ok m0 -> kekulize m0 = Ok (Some m1) ->
-  encoder T smiles strict attribute = Err e -> e = EncoderError \/ e = ValueError.
+  encoder T smiles strict attribute = Err e -> e = EncoderError.
 Proof.
   intros Hq Ep Ek E.
   pose proof (encoder_after_kekulize_no_assertion_error T smiles strict attribute m0 m1 e Ep Ek E) as N5.
@@ -127,6 +126,7 @@ Proof.
   pose proof (encoder_after_kekulize_no_index_error T smiles strict attribute m0 m1 e Ep Ek E) as N2.
   pose proof (encoder_after_kekulize_no_key_error T smiles strict attribute m0 m1 e Hq Ep Ek E) as N3.
   pose proof (encoder_after_kekulize_no_attribute_error T smiles strict attribute m0 m1 e Ep Ek E) as N4.
+  pose proof (encoder_after_kekulize_no_value_error T smiles strict attribute m0 m1 e Ep Ek E) as N6.
   assert (U : univ e).
   { unfold encoder, encoder_c in E. rewrite Ep in E. unfold encode_mol in E. rewrite Ek in E. cbn [bind] in E.
     match type of E with (do _ <- ?X; _) = _ => destruct X as [u|e1] eqn:Ec end; cbn [bind] in E.
@@ -137,6 +137,6 @@ Proof.
       destruct (bond_constraint_errors _ m1 (m_atoms m1) 0) as [bad|e1] eqn:Eb; cbn [bind] in Ec.
       + destruct bad; [inversion Ec; unfold univ; cbn; tauto|discriminate].
       + inversion Ec; subst. exact (constraint_errors_u T m1 _ _ _ Eb). }
-  unfold univ in U. cbn [In] in U. unfold nofuel in N1. unfold noidx in N2. unfold nokey in N3. unfold noattr in N4. unfold noassert in N5.
+  unfold univ in U. cbn [In] in U. unfold nofuel in N1. unfold noidx in N2. unfold nokey in N3. unfold noattr in N4. unfold noassert in N5. unfold novalue in N6.
   destruct U as [<-|[<-|[<-|[<-|[<-|[<-|[<-|[]]]]]]]]; auto; contradiction.
 Qed.
